@@ -217,6 +217,29 @@ def check(run):
     # ------------------------------------------------------------------ R7 raw reads of memo dicts, repo-wide
     raw_reads(run, ix, ef, 'R7', 'C01', floor=6)
 
+    # ------------------------------------------------------------------ R9 normal salvage in the re-indexing funnels
+    run.rule("R9", "update_faces / update_vertices salvage cached normals on the correct side of their data writes (a merge re-index outside a lock must drop vertex normals)")
+    from .c07 import _ordered
+
+    uvf = T.methods["update_vertices"]
+    cfgv = CFG(uvf.node, exceptions=False)
+    m_ = uvf.params[1]
+    ok = _ordered(cfgv, ["self.faces = inverse[self.faces.reshape(-1)].reshape((-1, 3))", "cached_normals = self._cache['vertex_normals']",
+                         f"self.vertices = self.vertices[{m_}]", f"self.vertex_normals = cached_normals[{m_}]"])
+    run.instance("R9", uvf.where, "vertex normals fetched after the face re-index, stored after the vertex write", ok)
+    if not ok:
+        run.violation("R9", uvf.where,
+                      "update_vertices fetches cached vertex normals before faces are re-indexed (or stores them before the vertex write): "
+                      "outside a cache lock a merge then keeps the pre-merge normal of the first vertex of each group",
+                      key=key_of("C01-R9", "update_vertices"))
+    uff = T.methods["update_faces"]
+    cfgf = CFG(uff.node, exceptions=False)
+    ok = _ordered(cfgf, ["cached_normals = self._cache['face_normals']", "self.faces = faces[mask]", "self.face_normals = cached_normals[mask]"])
+    run.instance("R9", uff.where, "face normals fetched before the face write and stored after it", ok)
+    if not ok:
+        run.violation("R9", uff.where, "update_faces reads or stores the salvaged face normals on the wrong side of the face write",
+                      key=key_of("C01-R9", "update_faces"))
+
     # ------------------------------------------------------------------ R5 transport guard in apply_transform
     _transport_guard(run, ix)
 
